@@ -1120,3 +1120,332 @@ func runF2I(c *Ctx, r *Result, rule string, fns []*ssa.Function) int {
 	}
 	return n
 }
+
+// ---------------------------------------------------------------------------------------
+// SORTTYPES (C13, C09): one type per sort term, remembered over ALL items.
+//
+// makeLessFunc compares keys with lt, which panics on a number and a string; buildSortInfo
+// keeps that from happening by remembering, per sort term, which type it has seen. Two
+// independent authors replaced the record by something that only remembers the previous item
+// (a comparison with the neighbour; a per-term slot that is overwritten for every item, also for
+// items without the key): mixed keys separated by an item that lacks the key then reach lt, or
+// are silently mis-ordered. Rule, in buildSortInfo: (1) every return of ErrSortMismatch is
+// controlled by a load from a per-term record (a slice made in the function, indexed by the
+// index of the loop over the terms); (2) every store into such a record is monotone — a constant
+// true, or a store under a test that the slot is still unset.
+// ---------------------------------------------------------------------------------------
+
+func runSORTTYPES(c *Ctx, r *Result, rule string) int {
+	f := c.mustFn(r, "jsonata.buildSortInfo")
+	if f == nil {
+		return 0
+	}
+	errConst := int64(-1)
+	if k, ok := f.Pkg.Pkg.Scope().Lookup("ErrSortMismatch").(*types.Const); ok {
+		errConst, _ = constant.Int64Val(k.Val())
+	}
+	if errConst < 0 {
+		r.LoseAnchor("SORTTYPES: constant ErrSortMismatch not found")
+		return 0
+	}
+	// slices made in f
+	madeHere := func(v ssa.Value) bool {
+		seen := map[ssa.Value]bool{}
+		var walk func(v ssa.Value) bool
+		walk = func(v ssa.Value) bool {
+			if seen[v] {
+				return true
+			}
+			seen[v] = true
+			switch x := v.(type) {
+			case *ssa.MakeSlice:
+				return true
+			case *ssa.Phi:
+				for _, e := range x.Edges {
+					if !walk(e) {
+						return false
+					}
+				}
+				return true
+			case *ssa.UnOp: // load of a local cell holding a made slice
+				if al, ok := x.X.(*ssa.Alloc); ok && x.Op == token.MUL {
+					if stores, ok := cellStores(al); ok && len(stores) > 0 {
+						for _, st := range stores {
+							if !walk(st.Val) {
+								return false
+							}
+						}
+						return true
+					}
+				}
+			}
+			return false
+		}
+		return walk(v)
+	}
+	isRecordLoad := func(v ssa.Value) (*ssa.IndexAddr, bool) {
+		ld, ok := v.(*ssa.UnOp)
+		if !ok || ld.Op != token.MUL {
+			return nil, false
+		}
+		ia, ok := ld.X.(*ssa.IndexAddr)
+		if !ok || !madeHere(ia.X) {
+			return nil, false
+		}
+		return ia, true
+	}
+	var condRecord func(cond ssa.Value, depth int) (*ssa.IndexAddr, bool)
+	condRecord = func(cond ssa.Value, depth int) (*ssa.IndexAddr, bool) {
+		if depth > 3 {
+			return nil, false
+		}
+		if ia, ok := isRecordLoad(cond); ok {
+			return ia, true
+		}
+		switch x := cond.(type) {
+		case *ssa.UnOp:
+			if x.Op == token.NOT {
+				return condRecord(x.X, depth+1)
+			}
+		case *ssa.BinOp:
+			if ia, ok := condRecord(x.X, depth+1); ok {
+				return ia, true
+			}
+			return condRecord(x.Y, depth+1)
+		}
+		return nil, false
+	}
+	n := 0
+	records := map[types.Type]bool{} // element types of the record slices
+	var recordIdx []ssa.Value
+	ord := 0
+	for _, ins := range instrsIn(f) {
+		call, ok := ins.(*ssa.Call)
+		if !ok {
+			continue
+		}
+		isMismatch := false
+		for _, a := range call.Call.Args {
+			if k, ok := a.(*ssa.Const); ok && k.Value != nil && k.Value.Kind() == constant.Int {
+				if nt, ok := k.Type().(*types.Named); ok && nt.Obj().Name() == "ErrType" {
+					if v, _ := constant.Int64Val(k.Value); v == errConst {
+						isMismatch = true
+					}
+				}
+			}
+		}
+		if !isMismatch {
+			continue
+		}
+		ord++
+		n++
+		o := Obligation{Rule: rule, Key: fmt.Sprintf("buildSortInfo:mismatch#%d", ord), Fn: shortFn(f), Pos: c.W.Pos(call.Pos()), Nontrivial: true}
+		var rec *ssa.IndexAddr
+		for d := call.Block(); d != nil && rec == nil; d = d.Idom() {
+			if len(d.Preds) != 1 {
+				continue
+			}
+			pr := d.Preds[0]
+			if iff, ok := pr.Instrs[len(pr.Instrs)-1].(*ssa.If); ok {
+				if ia, ok := condRecord(iff.Cond, 0); ok {
+					rec = ia
+				}
+			}
+		}
+		if rec == nil {
+			o.Verdict, o.Reason = Finding, "the mixed-type error of a sort term is not decided from a per-term record kept over all items (a slice made here and indexed by the term): comparing with the neighbouring item only misses mixed keys separated by an item without the key, and lt panics on them"
+		} else {
+			o.Verdict, o.Reason = Discharged, "the error is controlled by the per-term record " + rec.X.Name() + "[" + rec.Index.Name() + "]"
+			records[rec.X.Type()] = true
+			recordIdx = append(recordIdx, rec.Index)
+		}
+		r.Add(o)
+	}
+	// stores into the records are monotone
+	sord := 0
+	for _, ins := range instrsIn(f) {
+		st, ok := ins.(*ssa.Store)
+		if !ok {
+			continue
+		}
+		ia, ok := st.Addr.(*ssa.IndexAddr)
+		if !ok || !records[ia.X.Type()] || !madeHere(ia.X) {
+			continue
+		}
+		sord++
+		n++
+		o := Obligation{Rule: rule, Key: fmt.Sprintf("buildSortInfo:record-store#%d", sord), Fn: shortFn(f), Pos: c.W.Pos(st.Pos()), Nontrivial: true}
+		mono := false
+		if k, ok := st.Val.(*ssa.Const); ok && k.Value != nil && k.Value.Kind() == constant.Bool && constant.BoolVal(k.Value) {
+			mono = true
+		}
+		if !mono {
+			// only written while still unset: dominated by `record[j] == zero`
+			mono = domGuard(st.Block(), func(cond ssa.Value) (int, bool) {
+				bo, ok := cond.(*ssa.BinOp)
+				if !ok || (bo.Op != token.EQL && bo.Op != token.NEQ) {
+					return 0, false
+				}
+				for _, pr := range [][2]ssa.Value{{bo.X, bo.Y}, {bo.Y, bo.X}} {
+					ia2, isRec := isRecordLoad(pr[0])
+					k, isK := pr[1].(*ssa.Const)
+					if !isRec || !isK || ia2.X != ia.X && ia2.X.Type() != ia.X.Type() {
+						continue
+					}
+					zero := k.Value == nil
+					if k.Value != nil {
+						switch k.Value.Kind() {
+						case constant.Int:
+							v, _ := constant.Int64Val(k.Value)
+							zero = v == 0
+						case constant.Bool:
+							zero = !constant.BoolVal(k.Value)
+						case constant.String:
+							zero = constant.StringVal(k.Value) == ""
+						}
+					}
+					if !zero {
+						continue
+					}
+					if bo.Op == token.EQL {
+						return 0, true
+					}
+					return 1, true
+				}
+				return 0, false
+			})
+		}
+		if mono {
+			o.Verdict, o.Reason = Discharged, "the record only ever goes from unset to set"
+		} else {
+			o.Verdict, o.Reason = Finding, "the per-term type record is overwritten with a computed value (" + describeVal(st.Val) + "): it then remembers the latest item only, and an item without the key resets it"
+		}
+		r.Add(o)
+	}
+	return n
+}
+
+// ---------------------------------------------------------------------------------------
+// NEGFOLD (C03): the optimiser folds a negation only into a number literal.
+//
+// evalNegation is where a non-numeric operand of unary minus becomes an error. The optimiser may
+// fold `-<number literal>`; anything else it returns for a NegationNode must still be a
+// NegationNode, or the check is optimised away (`--"a"` = "a"). Rule: every success return of
+// (*NegationNode).optimize boxes a *NegationNode or a *NumberNode.
+// ---------------------------------------------------------------------------------------
+
+func runNEGFOLD(c *Ctx, r *Result, rule string) int {
+	f := c.mustFn(r, "jparse.(*NegationNode).optimize")
+	if f == nil {
+		return 0
+	}
+	n := 0
+	for _, b := range f.Blocks {
+		ret, ok := b.Instrs[len(b.Instrs)-1].(*ssa.Return)
+		if !ok || len(ret.Results) != 2 || !isSuccessReturn(ret) {
+			continue
+		}
+		n++
+		o := Obligation{Rule: rule, Key: fmt.Sprintf("(*NegationNode).optimize:result#%d", n), Fn: shortFn(f), Pos: c.W.Pos(ret.Pos()), Nontrivial: true}
+		bad := ""
+		var walk func(v ssa.Value, seen map[ssa.Value]bool)
+		walk = func(v ssa.Value, seen map[ssa.Value]bool) {
+			if seen[v] {
+				return
+			}
+			seen[v] = true
+			switch x := v.(type) {
+			case *ssa.Phi:
+				for _, e := range x.Edges {
+					walk(e, seen)
+				}
+			case *ssa.MakeInterface:
+				t := shortType(x.X.Type())
+				if t != "*jparse.NegationNode" && t != "*jparse.NumberNode" {
+					bad = "a " + t
+				}
+			case *ssa.Const:
+				if !x.IsNil() {
+					bad = "a constant"
+				}
+			default:
+				bad = "a node of unknown type (" + describeVal(v) + ")"
+			}
+		}
+		walk(ret.Results[0], map[ssa.Value]bool{})
+		if bad == "" {
+			o.Verdict, o.Reason = Discharged, "the optimised negation is a NegationNode (checked at evaluation time) or a folded number literal"
+		} else {
+			o.Verdict, o.Reason = Finding, "the optimiser replaces a negation by " + bad + ": the operand-type check of unary minus in evalNegation is optimised away"
+		}
+		r.Add(o)
+	}
+	return n
+}
+
+// ---------------------------------------------------------------------------------------
+// ARGPOS (C12, C20): an argument-type error names the position of the argument in the call.
+//
+// Rule: in the validateArgTypes methods, the position handed to newArgTypeError is idx+1 where
+// idx is the index of the loop that ranges over the argument list parameter itself — not over a
+// sub-slice of it, whose indexes start again at 0.
+// ---------------------------------------------------------------------------------------
+
+func runARGPOS(c *Ctx, r *Result, rule string) int {
+	mk := c.mustFn(r, "jsonata.newArgTypeError")
+	if mk == nil {
+		return 0
+	}
+	n := 0
+	for _, f := range c.G.Funcs {
+		if f.Pkg == nil || f.Pkg != mk.Pkg || f.Name() != "validateArgTypes" || len(f.Blocks) == 0 {
+			continue
+		}
+		var argv *ssa.Parameter
+		for _, p := range f.Params {
+			if sl, ok := p.Type().Underlying().(*types.Slice); ok && isReflectValue(sl.Elem()) {
+				argv = p
+			}
+		}
+		ord := 0
+		for _, ci := range callsIn(f) {
+			if ci.Common().StaticCallee() != mk || len(ci.Common().Args) < 2 {
+				continue
+			}
+			ord++
+			n++
+			o := Obligation{Rule: rule, Key: fmt.Sprintf("%s:position#%d", shortFn(f), ord), Fn: shortFn(f), Pos: c.W.Pos(ci.Pos()), Nontrivial: true}
+			pos := ci.Common().Args[1]
+			ok := false
+			why := "the position is " + describeVal(pos)
+			if add, isAdd := pos.(*ssa.BinOp); isAdd && add.Op == token.ADD {
+				if k, isK := intConstOf(add.Y); isK && k == 1 {
+					// idx is the induction variable of a loop bounded by len(argv)
+					idx := add.X
+					for _, hb := range f.Blocks {
+						iff, isIf := hb.Instrs[len(hb.Instrs)-1].(*ssa.If)
+						if !isIf || !hb.Succs[0].Dominates(ci.Block()) && hb.Succs[0] != ci.Block() {
+							continue
+						}
+						bo, isBo := iff.Cond.(*ssa.BinOp)
+						if !isBo || bo.Op != token.LSS || bo.X != idx {
+							continue
+						}
+						if lc, isLen := bo.Y.(*ssa.Call); isLen && isLenCall(lc) && argv != nil && lc.Call.Args[0] == ssa.Value(argv) {
+							ok = true
+						} else {
+							why = "the loop index runs over " + describeVal(bo.Y) + ", not over the argument list itself"
+						}
+					}
+				}
+			}
+			if ok {
+				o.Verdict, o.Reason = Discharged, "the reported position is the index in the argument list plus one"
+			} else {
+				o.Verdict, o.Reason = Finding, "the argument position reported by an ArgTypeError is not the index in the argument list plus one: " + why
+			}
+			r.Add(o)
+		}
+	}
+	return n
+}
